@@ -5,14 +5,20 @@ From TxV Require Import Core.Base Model.PegSyntax Model.Peg.
 Definition is_unord (k : kind) : bool := match k with KUnord => true | _ => false end.
 Definition node_ctx_free (nd : node) : bool :=
   match n_ws nd, n_skipws nd with
-  | None, None => negb (n_eolterm nd) && negb (is_unord (n_kind nd))
+  | None, None => negb (n_eolterm nd)
   | _, _ => false
   end.
 
-(* no node changes the whitespace context, and there is no comment model
-   (partial: unordered groups are also excluded, see design/C19.md) *)
+(* the comment model is absent or a single terminal (a Match node: never memoized) *)
+Definition comments_ok (g : grammar) : bool :=
+  match g_comments g with
+  | None => true
+  | Some cm => match get_node g cm with Some nd => is_match_kind (n_kind nd) | None => false end
+  end.
+
+(* no node changes the whitespace context, and the comment model is absent or a single terminal *)
 Definition ctx_constant (g : grammar) : bool :=
-  forallb node_ctx_free (g_nodes g) && match g_comments g with None => true | Some _ => false end.
+  forallb node_ctx_free (g_nodes g) && comments_ok g.
 
 (* ---------------------------------------------------------------- refutation outside the class
    Model: a=A | b=B; A[noskipws]: x=X 'q'; B: x=X 'r'; X: 'x' 'y';   (dumped by tools/pegdump.py) *)
@@ -269,4 +275,32 @@ Definition tbl_cm2 : list ((nat * nat) * nat) := [((0,0),3);((0,1),2);((0,2),1);
 Lemma refuted_comment_model :
   run g_cm2 c_default (orc_of tbl_cm2) false 100 in_cm2 = SyntaxErr 8 /\
   accepts (run g_cm2 c_default (orc_of tbl_cm2) true 100 in_cm2) = true.
+Proof. vm_compute. repeat split. Qed.
+
+(* Model: xs+=X[','] ';' | xs+=X[','] '.'; X: 'x' | /\d+/; Comment: /\/\/.*?$/; *)
+Definition g_exc : grammar := (mkGrammar [mkNode KSeq [1;13] None false [77;111;100;101;108]%N true false None None;
+  mkNode KChoice [2;9] None false [77;111;100;101;108]%N true false None None;
+  mkNode KSeq [3;8] None false []%N false false None None;
+  mkNode KPlus [4] (Some 7) false [95;95;97;115;103;110;95;111;110;101;111;114;109;111;114;101]%N true false None None;
+  mkNode KChoice [5;6] None false [88]%N true false None None;
+  mkNode (KStr [120]%N None) [] None false []%N false false None None;
+  mkNode (KRegex 0) [] None false []%N false false None None;
+  mkNode (KStr [44]%N None) [] None false [115;101;112]%N false false None None;
+  mkNode (KStr [59]%N None) [] None false []%N false false None None;
+  mkNode KSeq [10;12] None false []%N false false None None;
+  mkNode KPlus [4] (Some 11) false [95;95;97;115;103;110;95;111;110;101;111;114;109;111;114;101]%N true false None None;
+  mkNode (KStr [44]%N None) [] None false [115;101;112]%N false false None None;
+  mkNode (KStr [46]%N None) [] None false []%N false false None None;
+  mkNode KEOF [] None false [69;79;70]%N false false None None;
+  mkNode (KRegex 1) [] None false [67;111;109;109;101;110;116]%N true false None None] 0 (Some 14)).
+Definition in_exc : list N := [120;44;32;47;47;32;99;10;32;49;44;32;120;46]%N.  (* 'x, // c\n 1, x.' *)
+Definition tbl_exc : list ((nat * nat) * nat) := [((0,9),1);((1,3),4)].
+(* memoization=False: P:n0(n1(n10(n4(t5@0+1),t11@1+1,n4(t6@9+1),t11@10+1,n4(t5@12+1)),t12@13+1-),eof@14+0-) *)
+(* memoization=True: P:n0(n1(n10(n4(t5@0+1),t11@1+1,n4(t6@9+1),t11@10+1,n4(t5@12+1)),t12@13+1-),eof@14+0-) *)
+
+(* non-vacuity with a (single-terminal) Comment rule: in the class, comment inside the input *)
+Lemma example_in_class_comment :
+  ctx_constant g_exc = true /\ c_skipws c_default = true /\
+  accepts (run g_exc c_default (orc_of tbl_exc) true 100 in_exc) = true /\
+  run g_exc c_default (orc_of tbl_exc) true 100 in_exc = run g_exc c_default (orc_of tbl_exc) false 100 in_exc.
 Proof. vm_compute. repeat split. Qed.
